@@ -9,7 +9,7 @@ import posegen as pg
 import translate_py
 
 
-def mk_file(rng, names, pts, F, D, fill):
+def mk_file(rng, names, pts, F, D, fill, allvalid=False):
     comps = []
     k = 0
     for i, n in enumerate(pts):
@@ -19,14 +19,14 @@ def mk_file(rng, names, pts, F, D, fill):
     n = F * 1 * T * D
     case = {"dims": [100 + fill, 200, 0], "comps": comps, "fps": pg.b64(25.0), "shape": [F, 1, T, D], "cshape": [F, 1, T], "dtype": "f32",
             "edge": "none", "data": [pg.b64(float(fill * 1000 + i)) for i in range(n)],
-            "conf": [pg.b64(0.0 if (i + fill) % 5 == 0 else 1.0) for i in range(F * T)]}
+            "conf": [pg.b64(0.0 if (i + fill) % 5 == 0 and not allvalid else 1.0) for i in range(F * T)]}
     w = pg.impl_write(case)
     assert w[0] == "ok", w
     return w[1]
 
 
 MUTATORS = ["focus", "set_width", "new_dimensions", "rename_component", "rename_point", "append_limb", "edit_color", "pop_component",
-            "write_body", "write_conf", "set_fps", "normalize_size"]
+            "write_body", "write_conf", "set_fps", "normalize_size", "mask_cell", "mask_all", "assign_mask"]
 
 
 def apply_mutator(pose, name):
@@ -64,6 +64,20 @@ def apply_mutator(pose, name):
             pose.body.confidence[...] = 0.25
     elif name == "set_fps":
         pose.body.fps = 99.0
+    elif name == "mask_cell":
+        # marking a point missing in place, the numpy.ma way
+        import numpy.ma as ma
+        if pose.body.data.size:
+            pose.body.data[0, 0, 0] = ma.masked
+    elif name == "mask_all":
+        import numpy.ma as ma
+        if pose.body.data.size and ma.getmask(pose.body.data) is not ma.nomask:
+            pose.body.data.mask[...] = True
+    elif name == "assign_mask":
+        if pose.body.data.size:
+            m = np.zeros(pose.body.data.shape, dtype=bool)
+            m[-1] = True
+            pose.body.data.mask = m
     elif name == "normalize_size":
         # utils/generic.py normalize_pose_size writes header.dimensions.width/height in place
         h.dimensions.width = 1000
@@ -105,6 +119,8 @@ class C06(common.Prop):
             "B": mk_file(r, ["bo"], [2], 3, 2, 2),                     # shorter header
             "C": mk_file(r, ["body", "hand", "face_long_name"], [3, 2, 4], 3, 2, 3),   # longer header
             "D": mk_file(r, ["bodz", "hanb"], [3, 2], 4, 2, 4),       # equal-length header, different content
+            "V": mk_file(r, ["body", "hand"], [3, 2], 4, 2, 5, allvalid=True),     # nothing missing anywhere (no zero confidence)
+            "V2": mk_file(r, ["bo"], [5], 4, 2, 6, allvalid=True),                  # same body shape as V, nothing missing either
         }
         assert len(self.files["A"]) - 4 * 2 * 5 * 4 - 4 * 5 * 4 == len(self.files["D"]) - 4 * 2 * 5 * 4 - 4 * 5 * 4
         # legacy twin of A: byte-identical dimensions and components, version 0.1 and the v0.1 body layout
@@ -172,7 +188,10 @@ class C06(common.Prop):
                 p = results[st[1]][0].copy()
                 results.append([p, pg.dump_pose(p), ("copy", st[1])])
             elif results[st[1]][0] is not None:
-                apply_mutator(results[st[1]][0], st[2])
+                try:
+                    apply_mutator(results[st[1]][0], st[2])
+                except Exception:       # an operation that refuses this pose (focus on a pose without observed points): whatever it
+                    pass                # did before raising is still the owner's own change
                 results[st[1]][1] = pg.dump_pose(results[st[1]][0])
 
         def safe_probe():
@@ -197,8 +216,11 @@ class C06(common.Prop):
                     if id(o) in ids_i:
                         shared.append([i, j, n])
                 bi, bj = allp[i].body, allp[j].body
+                import numpy.ma as ma
+                mi, mj = ma.getmask(bi.data), ma.getmask(bj.data)
                 if np.shares_memory(np.asarray(bi.data.data), np.asarray(bj.data.data)) or \
-                        np.shares_memory(np.asarray(bi.confidence), np.asarray(bj.confidence)):
+                        np.shares_memory(np.asarray(bi.confidence), np.asarray(bj.confidence)) or \
+                        (mi is not ma.nomask and mj is not ma.nomask and np.shares_memory(mi, mj)):
                     shared.append([i, j, "body"])
         case["_impl"] = {"probe": probe_dump, "fresh": fresh, "changed": changed, "shared": shared}
         return {"probe": probe_dump}
